@@ -125,6 +125,7 @@ def run(chk):
                                                      ("absent", None, "exponentiated")):
         pe = mk_pe()
         th = legacy_theory()
+        th["XIF"] = Fraction(2)     # a concrete scale ratio: the flavour numbers of the upgraded points do not depend on it in any scheme
         th["ModEv"] = evmod
         th["nf0"] = nf0
         if modsv == "absent":
